@@ -2,6 +2,7 @@ CONSTANTS
   Logs = TRUE
   RecordHist = FALSE
   MaxInt = 0
+  Grow = FALSE
   AllowDie = TRUE
 SPECIFICATION Spec
 INVARIANT A_C01_Keys
